@@ -456,6 +456,10 @@ def harness(cfg, ns):
                 obls.append(Obl("merge_inplace:returns-None", r is None, rz))
                 obls += post_checks(c, want, want_ann, "merge_inplace", cats, (lo, hi))
                 obls.append(Obl("merge_inplace:operand-unchanged", SymBool(same_state(snapshot(other), opre)), rz))
+                # history across two objects: what happens to the operand afterwards is not the merged continuum's business
+                after = snapshot(c)
+                other.add("w", Segment(core.const(7000), core.const(7001)), "a")
+                obls.append(Obl("merge_inplace:a-later-add-on-the-operand-leaves-the-merged-continuum-as-it-was", SymBool(same_state(snapshot(c), after)), rz))
             else:
                 m1 = c.merge(other)
                 obls += post_checks(m1, want, want_ann, "merge", cats, (lo, hi))
@@ -465,6 +469,9 @@ def harness(cfg, ns):
                 obls.append(Obl("merge:__add__==merge", SymBool(same_state(snapshot(m2), snapshot(m1))), rz))
                 c.merge(other, in_place=True)
                 obls.append(Obl("merge:in-place==out-of-place", SymBool(same_state(snapshot(c), snapshot(m1))), rz))
+                after = snapshot(m1)
+                other.add("w", Segment(core.const(7000), core.const(7001)), "a")
+                obls.append(Obl("merge:a-later-add-on-the-operand-leaves-the-merged-continuum-as-it-was", SymBool(same_state(snapshot(m1), after)), rz))
         else:
             raise ValueError(op)
         return obls
@@ -602,9 +609,13 @@ def replay(case):
                     check(c, model, cats, "merge-source")
                     r2 = c + other
                     check(r2, mm, cats | {"a"}, "__add__")
+                    other.add("w", Segment(7000.0, 7001.0), "a")
+                    check(r, mm, cats | {"a"}, "merge, after a later add on the operand")
                 else:
                     c.merge(other, in_place=True)
                     check(c, mm, cats | {"a"}, "merge_inplace")
+                    other.add("w", Segment(7000.0, 7001.0), "a")
+                    check(c, mm, cats | {"a"}, "merge_inplace, after a later add on the operand")
             elif op == "eq":
                 want = (sorted(model) == sorted(om)) and all(model[a] == om.get(a) for a in model)
                 if (c == other) != want or (other == c) != want or (c != other) == want:
